@@ -341,6 +341,8 @@ class SchemaGen:
                     for k in list(b["properties"]):
                         if k != tag:
                             b["properties"][k] = self.uniform_closed(b["properties"][k], False)
+                            if b["properties"][k] == {"type": "null"}:
+                                b["properties"][k] = {"type": "boolean"}   # KF-C03-1 (null content -> unit variant)
         return {"oneOf": branches}
 
     def s_oneof_adjacent(self, d):
@@ -356,7 +358,8 @@ class SchemaGen:
                                  "required": [tag]})
             else:
                 if self.avoid:
-                    cs = self.uniform_closed(self.schema(d + 1), False) if i == rich else self.simple()
+                    # (a {type:null} content is the recorded finding KF-C03-1: it becomes a unit variant)
+                    cs = self.uniform_closed(self.schema(d + 1, no_null=True), False) if i == rich else self.simple()
                 else:
                     cs = self.schema(d + 1)
                 branches.append({"type": "object",
